@@ -4,6 +4,8 @@ import (
 	"fmt" // Import fmt for Sprintf
 
 	"github.com/HobbyOSs/gosk/internal/ast" // Change import to ast
+	"github.com/HobbyOSs/gosk/internal/codegen"
+	"github.com/HobbyOSs/gosk/pkg/ocode"
 )
 
 // processNoParam now matches the opcodeEvalFn signature and accepts the instruction name.
@@ -11,7 +13,14 @@ import (
 func processNoParam(env *Pass1, operands []ast.Exp, instName string) { // Add instName parameter
 	// パラメータを取らない命令（HLT等）は通常1バイト。
 	// TODO: 命令によっては1バイトでない場合もあるため、将来的には命令名をenv.AsmDBで調べるべき。
-	env.LOC += 1
+	size := 1
+	if kind, err := ocode.OcodeKindString("Op" + instName); err == nil {
+		// 2 バイト命令 (0F xx, D5 0A) やモードと異なるサイズ固定の命令 (66h) は 1 バイトではない
+		if n := codegen.NoParamSize(kind, env.BitMode); n > 0 {
+			size = n
+		}
+	}
+	env.LOC += int32(size)
 	// Emit the instruction name as ocode (改行なし).
 	env.Client.Emit(fmt.Sprintf("%s", instName)) // Remove newline
 }
